@@ -93,7 +93,20 @@ def run(ctx):
                 else:
                     xml = '<svg><config var-limit="%d"/><var v="%s"/><rect wh="1"/></svg>' % (L, val); cfg = {'add_auto_styles': False}
                 add(xml, cfg, 'ok' if n <= L else 'VarLimitError', 'var len=%d L=%d' % (n, L))
-                # doubling growth reaching the limit through expansion
+                # growth through expansion, with LATER siblings that shorten what the value was built from: the value computed in
+                # document order decides (a limit error is never retried into acceptance)
+                if 2 <= n <= 400:
+                    half = n // 2; rest = n - half
+                    later = rng.choice(['<var b="x"/>', '<var b=""/><rect wh="1"/>', '<rect wh="2"/><var b="y" c="z"/>', ''])
+                    xml = '<svg><var b="%s" c="%s"/><var a="$b$c"/>%s<rect wh="1" text="$a"/></svg>' % ('p' * half, 'q' * rest, later)
+                    add(xml, {'var_limit': L, 'add_auto_styles': False}, 'ok' if n <= L else 'VarLimitError', 'varexp len=%d L=%d later=%s' % (n, L, bool(later)))
+                if 4 <= L <= 300 and d in (0, 1):
+                    # doubling loop: 1, 2, 4, ... reaches 2^k; reset afterwards
+                    k = 0
+                    while (1 << k) <= L: k += 1            # 2^k > L: the k-th doubling exceeds the limit
+                    passes = k if d == 1 else k - 1
+                    xml = '<svg><var s="x"/><loop count="%d"><var s="$s$s"/></loop><var s="x"/><rect wh="1"/></svg>' % passes
+                    add(xml, {'var_limit': L, 'add_auto_styles': False}, 'ok' if (1 << passes) <= L else 'VarLimitError', 'vardouble passes=%d L=%d' % (passes, L))
                 # depth
                 if 2 <= n <= 140:
                     dd = depth_doc(rng, n)
